@@ -167,7 +167,15 @@ func dmClassify(err error, pnc any) dmVerdict {
 	case checker:
 		return dmVerdict{Class: "checker"}
 	case external:
-		return dmVerdict{Class: "external", GoType: dmTypeName(err), Msg: dmFirstLine(err.Error())}
+		// describe the innermost error of the chain
+		var deepest error
+		deepestDepth := -1
+		dmWalkErr(err, 0, func(e error, d int) {
+			if d >= deepestDepth {
+				deepest, deepestDepth = e, d
+			}
+		})
+		return dmVerdict{Class: "external", GoType: dmTypeName(deepest), Msg: dmFirstLine(deepest.Error())}
 	}
 	// innermost error type, for the distribution only
 	var inner error
@@ -311,15 +319,16 @@ var (
 	dmReSwapMemberIndex = regexp.MustCompile(`[A-Za-z_][A-Za-z0-9_]*(\.[A-Za-z_][A-Za-z0-9_]*)+\[[^\]\n]*\]\s*<->|<->\s*[A-Za-z_][A-Za-z0-9_]*(\.[A-Za-z_][A-Za-z0-9_]*)+\[[^\]\n]*\]`)
 	// `(c ? a : b)?.` optional chaining directly on a parenthesized conditional
 	// a conditional expression with a `nil` branch: `c ? x : nil`, `c ? nil : x`
-	dmReCondNil      = regexp.MustCompile(`\?[^?:\n]*:\s*nil\b|\?\s*nil\s*:`)
-	dmReOptChainCond = regexp.MustCompile(`\([^()\n]*(\([^()\n]*\)[^()\n]*)*\?[^()\n]*(\([^()\n]*\)[^()\n]*)*:[^()\n]*(\([^()\n]*\)[^()\n]*)*\)\s*\?\.`)
-	dmReAdd          = regexp.MustCompile(`\.contracts\.add\(`)
-	dmReRemove       = regexp.MustCompile(`\.contracts\.remove\(`)
-	dmReBorrowC      = regexp.MustCompile(`\.contracts\.borrow<`)
-	dmReEmitCond     = regexp.MustCompile(`(?s)(pre|post)\s*\{[^}]*emit\s`)
-	dmReImport       = regexp.MustCompile(`(?m)^\s*import\s`)
-	dmReRangeArity   = regexp.MustCompile(`InclusiveRange<[^<>]*,`)
-	dmReDestroyEvent = regexp.MustCompile(`event\s+ResourceDestroyed`)
+	dmReCondNil         = regexp.MustCompile(`\?[^?:\n]*:\s*nil\b|\?\s*nil\s*:`)
+	dmReOptChainCond    = regexp.MustCompile(`\([^()\n]*(\([^()\n]*\)[^()\n]*)*\?[^()\n]*(\([^()\n]*\)[^()\n]*)*:[^()\n]*(\([^()\n]*\)[^()\n]*)*\)\s*\?\.`)
+	dmReAdd             = regexp.MustCompile(`\.contracts\.add\(`)
+	dmReRemove          = regexp.MustCompile(`\.contracts\.remove\(`)
+	dmReBorrowC         = regexp.MustCompile(`\.contracts\.borrow<`)
+	dmReEmitCond        = regexp.MustCompile(`(?s)(pre|post)\s*\{[^}]*emit\s`)
+	dmReImport          = regexp.MustCompile(`(?m)^\s*import\s`)
+	dmReRangeArity      = regexp.MustCompile(`InclusiveRange<[^<>]*,`)
+	dmReContainerInsert = regexp.MustCompile(`\.(append|insert)\b`)
+	dmReDestroyEvent    = regexp.MustCompile(`event\s+ResourceDestroyed`)
 )
 
 // featureSignature names the known defect shape a (shrunk) failing program exhibits, from the Go type
@@ -341,6 +350,11 @@ func dmFeatureSignature(v dmVerdict, engine string, text string, failingStepKind
 		return "contracts-borrow-after-add"
 	case v.GoType == "UnreferencedRootSlabsError" && dmReAdd.MatchString(text) && dmReRemove.MatchString(text):
 		return "contracts-add-then-remove"
+	case v.GoType == "UnexpectedError" && (strings.HasPrefix(v.Frame, "interpreter.Convert") || strings.HasPrefix(v.Frame, "interpreter.convert.") ||
+		strings.HasPrefix(msg, "can_t convert to") || strings.HasPrefix(v.Msg, "can't convert to")) && dmReContainerInsert.MatchString(text):
+		// a value inserted through a covariant alias ([AnyStruct] of a [Int8]) is converted to the number
+		// element type before its type is checked
+		return "covariant-container-insert-number-convert"
 	case strings.HasPrefix(v.GoType, "UnexpectedError") && engine == "vm" && strings.HasPrefix(msg, "cannot find global declaration") &&
 		dmReEmitCond.MatchString(text) && dmReImport.MatchString(text):
 		return "vm-inherited-emit-condition-foreign-type"
